@@ -72,14 +72,47 @@ private def quirksOf (j : Json) : Quirks :=
       handshakeOsEscapes := g "handshake_os_escapes", handlesAfterClose := g "handles_after_close" }
   | _ => Quirks.current
 
-private def cfgOf? (j : Json) : Option Cfg := do
-  let c ← getObj? j "cfg"
-  let passive ← getBool? c "passive"
-  let tlsEnable ← getBool? c "tls_enable"
-  let requireTls ← optBool c "require_tls"
-  let requireHost ← getBool? c "require_host"
-  let requireNode ← getBool? c "require_node"
-  some { passive, tlsEnable, requireTls, requireHost, requireNode }
+/-- key absent ⇒ `none`; present ⇒ `some value` -/
+private def fileBool (j : Json) (k : String) : Option (Option Bool) :=
+  match j.getObjVal? k with
+  | .ok (.bool b) => some (some b)
+  | .error _ => some none
+  | _ => none
+
+/-- key absent ⇒ `none`; `null` ⇒ `some none`; boolean ⇒ `some (some b)` -/
+private def fileOptBool (j : Json) (k : String) : Option (Option (Option Bool)) :=
+  match j.getObjVal? k with
+  | .ok (.bool b) => some (some (some b))
+  | .ok .null => some (some none)
+  | .error _ => some none
+  | _ => none
+
+private def cfgFileOf? (f : Json) : Option CfgFile := do
+  let tlsEnable ← fileBool f "tls_enable"
+  let requireTls ← fileOptBool f "require_tls"
+  let requireHost ← fileBool f "require_host_authn"
+  let requireNode ← fileBool f "require_node_authn"
+  some { tlsEnable, requireTls, requireHost, requireNode }
+
+private def cfgJ (c : Cfg) : Json :=
+  jobj [("passive", Json.bool c.passive), ("tls_enable", Json.bool c.tlsEnable),
+        ("require_tls", match c.requireTls with | none => Json.null | some b => Json.bool b),
+        ("require_host", Json.bool c.requireHost), ("require_node", Json.bool c.requireNode)]
+
+/-- `cfg`: the options directly; or `cfg_file` (+ `passive`): the options as a configuration file gives them -/
+private def cfgOf? (j : Json) : Option Cfg :=
+  match getObj? j "cfg" with
+  | some c => do
+    let passive ← getBool? c "passive"
+    let tlsEnable ← getBool? c "tls_enable"
+    let requireTls ← optBool c "require_tls"
+    let requireHost ← getBool? c "require_host"
+    let requireNode ← getBool? c "require_node"
+    some { passive, tlsEnable, requireTls, requireHost, requireNode }
+  | none => do
+    let f ← cfgFileOf? (← getObj? j "cfg_file")
+    let passive ← getBool? j "passive"
+    some (loadFile passive f)
 
 private def envOf? (j : Json) : Option Env := do
   let e ← getObj? j "env"
@@ -173,6 +206,11 @@ def tlsHandler : Handler := fun op j =>
     let e ← envOf? j
     let p ← peerOf? j
     some (outcomeJ (outcome (quirksOf j) c e p) p)
+  | "tls.loadcfg" => do
+    -- `Config.from_file` on the policy options
+    let f ← cfgFileOf? (← getObj? j "cfg_file")
+    let passive := (getBool? j "passive").getD false
+    some (jobj [("cfg", cfgJ (loadFile passive f))])
   | "tls.match" => do
     -- `match_id` alone: ref `null` = Python None
     let kind ← getStr? j "kind"
